@@ -8,6 +8,7 @@
 //!     (graph of the opaque function; recomputed and checked here);
 //!   * `flag` — `g`: the bytes were produced by `wire::serialize` from a message built with the repo's types
 //!     (oracle: must decode, and re-encode to the same bytes); `-` otherwise.
+//! A second case form, `F <stream hex> <cuts> <onion set>`, runs the production path (see `run_stream_case`).
 //! Output: `ok <re-encoding> lossy=<-|p|a>` / `incomplete` (EOF error) / `invalid` / `panic:<msg>`.
 //!   `p`: decoded a ping/pong whose padding has a non-zero byte; `a`: decoded a node announcement whose
 //!   re-encoding differs from the input (user agent absent, defaulted); re-encoding `!` when
@@ -15,9 +16,131 @@
 
 mod wiregen;
 
+use radicle_node::deserializer::Deserializer;
 use radicle_node::service::message::{Announcement, AnnouncementMessage, Message};
 use radicle_node::wire;
+use radicle_node::wire::verif::{Control, Frame, FrameData};
+use radicle_node::Link;
 use verif_common::*;
+
+// ---------------------------------------------------------------------------------------------------
+// the production path: gossip frames through the stream deserializer
+
+fn show_frame(f: &Frame<Message>) -> String {
+    let sid = u64::from(f.stream);
+    match &f.data {
+        FrameData::Control(Control::Open { stream }) => format!("c{sid}:o{}", u64::from(*stream)),
+        FrameData::Control(Control::Close { stream }) => format!("c{sid}:x{}", u64::from(*stream)),
+        FrameData::Control(Control::Eof { stream }) => format!("c{sid}:e{}", u64::from(*stream)),
+        FrameData::Git(data) => format!("t{sid}:{}", wiregen::short(data)),
+        FrameData::Gossip(msg) => match catch(|| wire::serialize(msg)) {
+            Ok(b) => format!("g{sid}:{}", wiregen::short(&b)),
+            Err(_) => format!("g{sid}:!"),
+        },
+    }
+}
+
+/// `F <stream hex> <cuts> <onion set>`: a stream of gossip frames produced by the real encoder from messages
+/// built with the repo's types, delivered to the real `Deserializer<MAX_INBOX_SIZE, Frame<Message>>` in the
+/// chunks given by `cuts`, draining after each chunk (as `wire/protocol.rs` does on every transport read).
+/// Output: `<groups> end=<more|err|full|panic:..> left=<n>` (as the C14 harness prints it).
+fn run_stream_case(input: &str) -> Option<Outcome> {
+    let t: Vec<&str> = input.split(' ').collect();
+    if t.len() != 4 || t[0] != "F" {
+        return None;
+    }
+    let bad = || Some(Outcome::new("bad-case").trivial());
+    let Some(stream) = unhex(t[1]) else { return bad() };
+    let cuts: Vec<usize> = if t[2] == "-" {
+        vec![]
+    } else {
+        match t[2].split(',').map(|x| x.parse().ok()).collect::<Option<Vec<usize>>>() {
+            Some(c) => c,
+            None => return bad(),
+        }
+    };
+    let mut pos = 0;
+    for c in &cuts {
+        if *c < pos || *c > stream.len() {
+            return bad();
+        }
+        pos = *c;
+    }
+    if wiregen::onion_token(&stream) != t[3] {
+        return bad();
+    }
+    let mut chunks: Vec<&[u8]> = vec![];
+    let mut pos = 0;
+    for c in &cuts {
+        chunks.push(&stream[pos..*c]);
+        pos = *c;
+    }
+    chunks.push(&stream[pos..]);
+
+    let mut de = Deserializer::<2097152, Frame<Message>>::new(1024);
+    let mut groups: Vec<Vec<Frame<Message>>> = vec![];
+    let mut end = "more".to_string();
+    'outer: for c in &chunks {
+        if de.input(c).is_err() {
+            end = "full".into();
+            break;
+        }
+        let mut group = vec![];
+        loop {
+            match catch(|| de.deserialize_next()) {
+                Ok(Ok(Some(f))) => group.push(f),
+                Ok(Ok(None)) => break,
+                Ok(Err(_)) => {
+                    end = "err".into();
+                    groups.push(group);
+                    break 'outer;
+                }
+                Err(msg) => {
+                    end = format!("panic:{}", msg.replace(' ', "_"));
+                    groups.push(group);
+                    break 'outer;
+                }
+            }
+        }
+        groups.push(group);
+    }
+    let left = de.len();
+    let gs: Vec<String> = groups
+        .iter()
+        .map(|g| if g.is_empty() { "-".to_string() } else { g.iter().map(show_frame).collect::<Vec<_>>().join(";") })
+        .collect();
+    let mut o = Outcome::new(format!("{} end={end} left={left}", if gs.is_empty() { "-".to_string() } else { gs.join("|") }));
+    // oracle: every message arrives as sent — the frames decoded re-encode to exactly the stream
+    let mut re = vec![];
+    for f in groups.iter().flatten() {
+        match catch(|| f.to_bytes()) {
+            Ok(b) => re.extend_from_slice(&b),
+            Err(_) => re.push(0xff),
+        }
+    }
+    let n: usize = groups.iter().map(|g| g.len()).sum();
+    if end != "more" || left != 0 || re != stream {
+        let first_diff = re.iter().zip(stream.iter()).position(|(a, b)| a != b).unwrap_or(re.len().min(stream.len()));
+        o = o.violation(
+            "stream-roundtrip-differs",
+            format!(
+                "gossip frames fed in {} chunk(s) (cuts {}): {n} frame(s) end={end} left={left}; re-encoding of what was \
+                 delivered differs from what was sent from byte {first_diff}",
+                chunks.len(), t[2]
+            ),
+        );
+    }
+    for f in groups.iter().flatten() {
+        if let FrameData::Gossip(m) = &f.data {
+            o = o.tag(format!("stream-{}", wiregen::kind_name(m)));
+        }
+    }
+    o = o.tag(match chunks.len() { 1 => "stream-chunks-1", 2 => "stream-chunks-2", _ => "stream-chunks-3+" });
+    o.tags.sort();
+    o.tags.dedup();
+    o.nontrivial = n > 0;
+    Some(o)
+}
 
 fn parse(input: &str) -> Option<(Vec<u8>, String, bool)> {
     let t: Vec<&str> = input.split(' ').collect();
@@ -67,6 +190,9 @@ fn valid_case(rng: &mut Rng, kind: u64, big: bool) -> String {
 
 fn run_case(input: &str) -> Outcome {
     if let Some(o) = run_encode_case(input) {
+        return o;
+    }
+    if let Some(o) = run_stream_case(input) {
         return o;
     }
     let Some((bytes, onions, generated)) = parse(input) else { return Outcome::new("bad-case").trivial() };
@@ -420,6 +546,43 @@ fn main() {
                 ctx.record(&input, o);
             }
         }
+        // the stream path: gossip frames cut at EVERY byte position, plus random multi-cut chunkings
+        let mut rng = Rng::new(0xC15F);
+        let reps = ctx.size(1, 6);
+        for _ in 0..reps {
+            // node announcements (several), then one message of every other kind that is small enough
+            for kind in [1u64, 1, 1, 1, 2, 3, 4, 5, 6] {
+                let n_frames = rng.range(1, 2);
+                let mut stream = vec![];
+                for k in 0..n_frames {
+                    let kd = if k == 0 { kind } else { rng.below(7) };
+                    let m = wiregen::message_of_kind(&mut rng, kd, false);
+                    let link = if rng.bool() { Link::Inbound } else { Link::Outbound };
+                    stream.extend(Frame::gossip(link, m).to_bytes());
+                }
+                let onions = wiregen::onion_token(&stream);
+                if stream.len() <= 700 {
+                    for c in 0..=stream.len() {
+                        let input = format!("F {} {c} {onions}", hex(&stream));
+                        let o = run_case(&input);
+                        ctx.count("gen-stream-every-cut");
+                        ctx.record(&input, o);
+                    }
+                }
+                for _ in 0..8 {
+                    let mut cuts: Vec<usize> = (0..rng.range(2, 6)).map(|_| rng.below(stream.len() as u64 + 1) as usize).collect();
+                    cuts.sort();
+                    let input = format!(
+                        "F {} {} {onions}",
+                        hex(&stream),
+                        cuts.iter().map(|c| c.to_string()).collect::<Vec<_>>().join(",")
+                    );
+                    let o = run_case(&input);
+                    ctx.count("gen-stream-random-cuts");
+                    ctx.record(&input, o);
+                }
+            }
+        }
         let mut rng = ctx.rng();
         for _ in 0..ctx.size(8_000, 200_000) {
             let (input, tag) = gen_case(&mut rng);
@@ -434,7 +597,8 @@ fn main() {
          all address types: IPv4 special ranges, structured IPv6 (IPv4-mapped/-compatible, ::, ::1, NAT64, 6to4, link-local, unique-local, multicast, documentation), DNS names (255 bytes, trailing dot, upper case, punycode, IDN, IP/onion look-alikes), valid onion addresses, ports 0/65535; multi-byte, upper-case, non-NFC aliases; agents with spaces and upper case); timestamps patched to i64::MAX-1/MAX/MAX+1/u64::MAX; node announcements with alias / \
          user-agent fields replaced by UTF-8, White_Space/Cc and user-agent-grammar boundary strings; user agent dropped \
          or cut short; ping/pong padding overwritten; bit/byte/insert/delete/truncate/append mutations; counts beyond the \
-         vector limits; ping/pong counts around the encodable maximum; random bytes behind a valid type id. \
+         vector limits; ping/pong counts around the encodable maximum; random bytes behind a valid type id. Stream path (`F` cases): the same messages framed as gossip frames and fed to the real \
+         Deserializer<_, Frame<Message>> cut at EVERY byte position and in random multi-cut chunkings. \
          non-trivial = the bytes decoded (the property speaks about bytes that decode); distinct by input text",
         false,
     );
